@@ -812,6 +812,9 @@ class ClientSession:
                         )
                         if r_url is None:
                             # see github.com/aio-libs/aiohttp/issues/2022
+                            # Nothing to follow: this response is the result of the
+                            # call, not one of its predecessors.
+                            history.pop()
                             break
                         else:
                             # reading from correct redirection
